@@ -7038,7 +7038,11 @@ impl<T: Deserialize + Packed> Deserialize for Vec<T> {
             if num_elems == 0 {
                 return Ok(Vec::new());
             }
-            let num_bytes = elem_size * num_elems;
+            let num_bytes = if let Some(num_bytes) = elem_size.checked_mul(num_elems) {
+                Ok(num_bytes)
+            } else {
+                Err(SavefileError::SizeOverflow)
+            }?;
 
             let layout = if let Ok(layout) = std::alloc::Layout::from_size_align(num_bytes, align) {
                 Ok(layout)
